@@ -179,9 +179,12 @@ def eval_refactor(rid):
     res["applies"] = True
     try:
         sh(f"git -C /repo apply {os.path.join(dst, 'patch.diff')}")
-        for i in range(1, 21):
-            pid = f"C{i:02d}"
-            r = run_check(pid, "quick")
+        from concurrent.futures import ThreadPoolExecutor
+        pids = [f"C{i:02d}" for i in range(1, 21)]
+        with ThreadPoolExecutor(max_workers=int(os.environ.get("VERIF_JOBS", "5"))) as ex:
+            results = dict(zip(pids, ex.map(lambda p_: run_check(p_, "quick"), pids)))
+        for pid in pids:
+            r = results[pid]
             if r["exit"] != 0:
                 # the full obligation list tells which theorem / correspondence broke
                 try:
